@@ -64,6 +64,8 @@ def harness_fault(e):
         tb = tb.tb_next
     fn = last.tb_frame.f_code.co_filename if last is not None else ''
     in_verif = fn.startswith(VERIF + os.sep)
+    if type(e).__name__ in ('Skip', 'Hang') and type(e).__module__.startswith('harness'):
+        return True        # the harness's own "outside the modelled domain" signal escaped its guard: a harness bug
     if isinstance(e, (NotImplementedError, ImportError, NameError)) and in_verif:
         return True
     if isinstance(e, AttributeError):
